@@ -58,9 +58,32 @@ def check_point(drv, p, r, fails, expect_cell=None):
         if w2 is None or (w2 != 1 and d2 / size > tol):
             fails.append(Failure(f'lonlat_to_cell is not 360-degree periodic at {p}, resolution {r}: {hex(c)} vs {hex(c2)}', {'p': list(p), 'r': r}))
 
+# inputs on which the pinned tree failed (repaired by ac2f470): exact cell corners on a face seam
+REGRESSION_POINTS = [((-125.11916094236426, 46.766389527751706), 3), ((67.10721420146098, -1.1746807697173285), 25),
+                     ((-165.02605289145345, -52.755541033666866), 18)]
+
+def all_corners(drv, r):
+    """every published corner of every cell of resolution r, as published (distinct spellings kept)"""
+    a5 = drv.a5
+    out, seen = [], set()
+    for c in a5.cell_to_children(0, r):
+        for q in a5.cell_to_boundary(c, {'segments': 1, 'closed_ring': False}):
+            q = tuple(q)
+            if q not in seen:
+                seen.add(q); out.append(q)
+    return out
+
 def oracle(tier, rng, seeds):
     drv = common.py_driver()
     fails, n, seen = [], 0, set()
+    for p, r in REGRESSION_POINTS:
+        check_point(drv, p, r, fails); n += 1; seen.add((p, r))
+    # exhaustive: every published corner of every cell at the coarsest Hilbert levels, given back unchanged
+    for r in ((2, 3) if tier == 'quick' else (2, 3, 4, 5)):
+        for q in all_corners(drv, r):
+            check_point(drv, q, r, fails); n += 1; seen.add((q, r))
+            if len(fails) > 30:
+                break
     pts = geo_gens.points(drv, tier, rng, 400 if tier == 'quick' else 20000)
     work = [(p, rng.randint(0, 29)) for p in pts]
     work += [(p, rng.choice([0, 1, 2, 3])) for p in pts[::11]]
